@@ -79,6 +79,14 @@ class _Aw:
         return self.coro.__await__()
 
 
+class _FalsyCtx(Context):
+    """A Context subclass that is falsy while it is empty (it has a length): still a
+    perfectly good context - and a perfectly good explicit parent."""
+
+    def __len__(self) -> int:
+        return 0
+
+
 class _Ballast:
     pass
 
@@ -168,15 +176,16 @@ class H:
         cid = b["id"]
         pmode = b.get("parent", "implicit")
         lexical = exp
+        ctx_cls = _FalsyCtx if b.get("falsy_ctx") else Context
         if pmode == "ancestor" and b.get("parent_id") in self.ctxs:
             # an explicit parent that is not the current context: the snapshot comes from it,
             # while the current context stays what it was around the block
-            ctx = Context(self.ctxs[b["parent_id"]])
+            ctx = ctx_cls(self.ctxs[b["parent_id"]])
             exp = b["parent_id"]
         elif pmode == "explicit" and exp in self.ctxs:
-            ctx = Context(self.ctxs[exp])
+            ctx = ctx_cls(self.ctxs[exp])
         else:
-            ctx = Context()
+            ctx = ctx_cls()
         self.know(ctx, cid)
         sim.log("ctx_new", ctx=cid, parent=self.cid(ctx.parent), exp=exp)
         self.observe()
@@ -497,6 +506,8 @@ class H:
         h = self
 
         def produce() -> Any:
+            if spec.get("none_product"):
+                return None  # a factory is free to produce None (add_resource is not)
             v = h.newval(f"g_{fid}_", rtypes.FalsyVal if spec.get("falsy") else rtypes.Val)
             return v
 
@@ -547,6 +558,33 @@ class H:
                     return await inner2()
 
             fac = AsyncCallable()  # type: ignore[assignment]
+        elif wrap == "unhashable" and not spec.get("annot"):
+            # a callable object with value semantics (an ordinary @dataclass with __call__):
+            # equality defined, hence not hashable
+            inner3 = fac
+            if kind == "sync":
+
+                class _UhFactory:
+                    __hash__ = None  # type: ignore[assignment]
+
+                    def __eq__(self, other: Any) -> bool:
+                        return type(other) is type(self)
+
+                    def __call__(self) -> Any:
+                        return inner3()
+
+            else:
+
+                class _UhFactory:  # type: ignore[no-redef]
+                    __hash__ = None  # type: ignore[assignment]
+
+                    def __eq__(self, other: Any) -> bool:
+                        return type(other) is type(self)
+
+                    async def __call__(self) -> Any:
+                        return await inner3()
+
+            fac = _UhFactory()  # type: ignore[assignment]
         if spec.get("annot"):
             # types via the return annotation (single type, Union or PEP 604 union)
             if len(types) == 1:
@@ -1303,7 +1341,7 @@ def _valid_name(n: str) -> bool:
 
 
 # ============================================================================ generator
-BAD_NAMES = ("", "with space", "x.y", "x:y")
+BAD_NAMES = ("", "with space", "x.y", "x:y", "a\n", "default\n")
 
 
 class G:
@@ -1421,6 +1459,10 @@ class G:
                 spec["raises"] = "notfound" if rng.random() < 0.4 else True
             if rng.random() < 0.2:
                 spec["falsy"] = True
+            elif rng.random() < 0.06:
+                spec["none_product"] = True
+            if "wrap" not in spec and rng.random() < 0.1:
+                spec["wrap"] = "unhashable"
             r = rng.random()
             if r < 0.25:
                 spec["annot"] = rng.choice(("union", "pep604"))
@@ -1588,6 +1630,21 @@ def gen(rng: random.Random, tier: str, prop: str) -> dict:
     }
     if rng.random() < (0.15 if prop in ("C04", "C19") else 0.04):
         _make_async_only(plan["root"], rng)
+    if rng.random() < 0.08:
+        # some of the contexts are instances of a falsy Context subclass
+        def mark(b: dict) -> None:
+            if rng.random() < 0.6:
+                b["falsy_ctx"] = True
+            for a in b.get("body", ()):
+                if a[0] == "child":
+                    mark(a[1])
+                elif a[0] == "par":
+                    for br in a[1]:
+                        for a2 in br.get("body", ()):
+                            if a2[0] == "child":
+                                mark(a2[1])
+
+        mark(plan["root"])
     return plan
 
 
